@@ -435,3 +435,26 @@ def digit_pattern(rng):
         ds = rng.choice(("9" * n, "1" + "0" * (n - 1), "1" + "0" * max(0, n - 2) + "1", "5" * n, "4" * (n - 1) + "5"))
     c = int(ds.lstrip("0") or "0")
     return min(c, M)
+
+
+def wrapped_multiples():
+    """[(c, n)]: multiples of 10^n (and of 5^n, shifted by n bits) just beyond 2^64 / 2^128, reduced modulo 2^64 / 2^128:
+    c = k * 10^n - 2^w for k = ceil(2^w / 10^n) + j. Not multiples of 10^n themselves, but congruent to one modulo the word
+    size - the impostors of any divisibility or exact-division test done in wrapping w-bit arithmetic."""
+    out = []
+    for w in (64, 128):
+        for n in range(1, 19):
+            for base in (10 ** n, 5 ** n):
+                k0 = -(-(1 << w) // base)
+                for j in (0, 1, 2, 3, 7):
+                    c = (k0 + j) * base - (1 << w)
+                    if base != 10 ** n:
+                        c <<= n
+                    if 0 < c <= M:
+                        out.append((c, n))
+                # ... and just below a multiple of 2^w: 2 * 2^w etc.
+                k1 = -(-(2 << w) // base)
+                c = k1 * base - (2 << w)
+                if 0 < c <= M and base == 10 ** n:
+                    out.append((c, n))
+    return out
